@@ -47,7 +47,7 @@ class ScriptedPRF:
         return real_prf(key, msg)
 
 
-_PROBE = {"installed": False, "rec": None}
+_PROBE = {"installed": False, "rec": None, "fail": None}
 
 
 def install_os_random_probes():
@@ -66,6 +66,8 @@ def install_os_random_probes():
         if rec is not None:
             rec["bytes"] += n
             rec["calls"] += 1
+        if _PROBE["fail"] is not None:
+            raise _PROBE["fail"]
         return real_urandom(n)
     os.urandom = urandom
     random._urandom = urandom
@@ -73,6 +75,8 @@ def install_os_random_probes():
         real_getrandom = os.getrandom
 
         def getrandom(size, flags=0):
+            if _PROBE["fail"] is not None:
+                raise _PROBE["fail"]
             out = real_getrandom(size, flags)
             rec = _PROBE["rec"]
             if rec is not None:
@@ -85,6 +89,8 @@ def install_os_random_probes():
         real_rand = ssl.RAND_bytes
 
         def rand_bytes(n):
+            if _PROBE["fail"] is not None:
+                raise _PROBE["fail"]
             rec = _PROBE["rec"]
             if rec is not None:
                 rec["bytes"] += n
@@ -107,6 +113,18 @@ def urandom_recorder():
         yield rec
     finally:
         _PROBE["rec"] = old
+
+
+@contextlib.contextmanager
+def os_random_unavailable(exc):
+    """While the block runs every door to the OS random source raises `exc` (fault injection)."""
+    install_os_random_probes()
+    old = _PROBE["fail"]
+    _PROBE["fail"] = exc
+    try:
+        yield
+    finally:
+        _PROBE["fail"] = old
 
 
 @contextlib.contextmanager
